@@ -101,6 +101,17 @@ func (vt *VerifTable) BlockBaseKeys() [][]byte {
 	}
 	return out
 }
+
+// BlockExtents returns (offset, length) of every data block inside the file (from the table index).
+func (vt *VerifTable) BlockExtents() [][2]int {
+	var out [][2]int
+	if idx := vt.t.index(); idx != nil {
+		for _, o := range idx.GetOffsets() {
+			out = append(out, [2]int{int(o.GetOffset()), int(o.GetLen())})
+		}
+	}
+	return out
+}
 func (vt *VerifTable) HasBloom() bool   { return vt.t.HasBloomFilter() }
 func (vt *VerifTable) MinKey() []byte   { return vt.t.MinKey() }
 func (vt *VerifTable) MaxKey() []byte   { return vt.t.MaxKey() }
